@@ -367,7 +367,8 @@ class ConfWorld(World):
 
 # ---- generation ---------------------------------------------------------------------------------
 
-TRANSPORTS_OK = ['unix:///run/nfd/nfd.sock', 'unix:///run/nfd.sock', 'unix:///tmp/my.sock', 'tcp://10.1.2.3', 'tcp://10.1.2.3:7000',
+TRANSPORTS_OK = ['unix:///run/nfd/nfd.sock', 'unix:///run/nfd.sock', 'unix:///tmp/my.sock', 'unix:///var/run/NFD/Nfd.sock', 'unix:///tmp/MySock',
+                 'TCP://10.1.2.9:7001', 'tcp://10.1.2.3', 'tcp://10.1.2.3:7000',
                  'tcp4://nfd.example.net:6363', 'tcp6://[::1]:6363', 'tcp6://[2001:db8::1]', 'udp://10.9.8.7', 'udp4://10.9.8.7:56363',
                  'udp6://[fe80::2]:6364', 'tcp://localhost', 'udp://router:1']
 TRANSPORTS_BAD = ['ws://10.1.2.3:9696', 'wss://x', 'http://nfd', 'dev://eth0', 'ether://[01:00:5e:00:17:aa]', 'nfd.sock', '',
